@@ -7,6 +7,8 @@ package uncurry
 
 //@ func (g *gen) Add(name string, typs []types.Type) (r string, err error)
 //@ param typs: len=0,1,2,3
+// two nested parameter lists, each name blank / empty / ordinary: arities up to 2 here
+//@ max-arity: 2
 //@ param name: classes=Ident
 
 //@ func (g *gen) Generate(typs []types.Type) (err error)
@@ -14,7 +16,7 @@ package uncurry
 
 //@ func (g *gen) genFuncFor(ftyp *types.Signature) (err error)
 //@ param ftyp: nparams=1 nresults=1 result0kind=Signature
-//@ name-variants
+// parameter names are always present here: the registering Add renames blank and empty names (derive.RenameBlankIdentifier)
 //@ emits: decls
 //@ serves: uncurry len=1 ftyp=typs[0]
 //@ o-sig: (f $ftyp) (r func())
